@@ -1,8 +1,57 @@
-(** C16 - placeholder statements; see inf/InferFacts.v *)
+(** C16 - For is a deterministic, isolating function of type and options.
+    In the model For is a Gallina function (equal arguments give equal results) returning an
+    immutable tree (nothing is shared by construction); freshness and sharing of *Schema
+    objects in the package are decided by the correspondence laws of family infer.
+    Proved here: the shape of the result for structs and the cycle check. *)
 From Coq Require Import List NArith ZArith QArith Bool.
-From JS Require Import Str Lit Json Res GoValue Schema Basic GoType Encode Infer InferFacts.
+From JS Require Import Str Lit Json Res Schema Basic GoType Encode Infer InferFacts C04Main C16Facts.
 Import ListNotations.
+Local Open Scope nat_scope.
 
+(** the properties of a struct's schema are exactly the fields encoding/json emits (its
+    field selection [json_fields], validated against the real encoder on every run), under
+    their JSON names and in field order (PropertyOrder); each property's schema is the
+    field type's inferred schema (plus its jsonschema description); a field is required
+    exactly when its tag has neither omitempty nor omitzero; unknown members are refused *)
+Theorem C16_struct_fields : forall o rec t0 s,
+  (forall t, rec t <> Ok None) ->
+  json_fields (ovr_of o) t0 = json_fields (fun _ => false) t0 ->
+  (forall f, In f (json_fields (fun _ => false) t0) -> jf_override f = false) ->
+  infer_struct o rec t0 = Ok s ->
+  let L := json_fields (fun _ => false) t0 in
+  exists ps,
+    s_properties s = (if has_fields t0 then Some ps else None) /\
+    map fst ps = map jf_name L /\
+    Forall2 (fun f p => field_schema_ok rec f (snd p)) L ps /\
+    s_required s = (match map jf_name (filter (fun f => negb (omit_set f)) L) with [] => None | r => Some r end) /\
+    s_propertyOrder s = (match map jf_name L with [] => None | x => Some x end) /\
+    s_type s = lit "object"%lit /\ s_additionalProperties s = Some false_schema.
+Proof. exact infer_struct_fields. Qed.
+Print Assumptions C16_struct_fields.
+
+(** the selected fields have pairwise distinct JSON names *)
 Theorem C16_names_distinct : forall ovr t, NoDup (map jf_name (json_fields ovr t)).
 Proof. exact json_fields_names_nodup. Qed.
 Print Assumptions C16_names_distinct.
+
+(** a defined type met again while it is being inferred is an error at once: recursive
+    types end in an error, not in a hang *)
+Theorem C16_cycle : forall o n seen t,
+  nonempty (type_name (snd (strip_ptrs t))) = true ->
+  mem_str (type_name (snd (strip_ptrs t))) seen = true ->
+  infer o (S n) seen t = Err.
+Proof. exact infer_cycle. Qed.
+Print Assumptions C16_cycle.
+
+(** with IgnoreInvalidTypes off nothing is silently dropped *)
+Theorem C16_nothing_dropped : forall o, o_ignore o = false -> forall n seen t, infer o n seen t <> Ok None.
+Proof. exact infer_not_none. Qed.
+Print Assumptions C16_nothing_dropped.
+
+(** type R struct { Next *R; V int } *)
+Example C16_recursive :
+  ForType (mkO false false [])
+    (TyNamed (lit "main.R"%lit) (TyStruct [
+       (mkF (lit "Next"%lit) true false false [] None, TyPtr (TyRec (lit "main.R"%lit)));
+       (mkF (lit "V"%lit) true false false [] None, TyInt KInt)])) = Err.
+Proof. vm_compute. reflexivity. Qed.
